@@ -15,9 +15,10 @@ independently of ExactOccursCheck (the Terminates clause uses the AS-FOUND model
 """
 import copy
 import json
+import shutil
 from concurrent.futures import ThreadPoolExecutor
 
-from harness.core import (SPEC, MachineryError, model_check, read_events, require, run_driver, seed, spec_mutant,
+from harness.core import (REPO, SPEC, MachineryError, digest, model_check, read_events, require, run_driver, seed, spec_mutant,
                           validate_trace, work_dir, write_events)
 
 PID = "C08"
@@ -107,9 +108,30 @@ def _model_runs(cfg, wd, eoc, avc, workers):
     return last, violated
 
 
+def _guard(rep, cond, msg):
+    """Vacuity guard.  A witnessed violation takes priority: once one is recorded, a failing guard (the broken
+    implementation may well empty an outcome class) is only noted in the evidence."""
+    if cond:
+        return
+    if rep.violations:
+        rep.notes.setdefault("guards_not_met_after_violation", []).append(msg)
+    else:
+        raise MachineryError(msg)
+
+
 def run(rep, tier):
     quick = tier == "quick"
-    wd = work_dir(PID, "run", clean=True)
+    # one scratch directory per repository under test: concurrent runs against different worktrees must not share it
+    sub = "run" if str(REPO) == "/repo" else "run_" + digest(str(REPO))
+    wd = work_dir(PID, sub, clean=True)
+    try:
+        _run(rep, quick, wd)
+    finally:
+        if sub != "run":
+            shutil.rmtree(wd, ignore_errors=True)
+
+
+def _run(rep, quick, wd):
     sizes = ["small"] if quick else ["deep", "cyc"]
     rep.rule = ("TLC explores (a) all sequences of unify calls (%s) over internal type variables and {bool, fun, list} on the "
                 "as-coded union-find machine, (b) all well-typed terms within %s growth steps (size <= %s) over a 20-constant "
@@ -214,11 +236,11 @@ def run(rep, tier):
             _selftests(rep, evs, wd, tenv)
         _log("trace %s validated" % name)
     tr = rep.notes["traces"]
-    require(tr["replay"]["nontrivial"] >= 0.95 * tr["replay"]["events"] and tr["replay"]["events"] >= nvec,
-            "C08: too few examined replay events (vacuity guard)")
-    require(tr["random"]["nontrivial"] >= 0.8 * tr["random"]["events"], "C08: too few examined random events (vacuity guard)")
+    _guard(rep, tr["replay"]["nontrivial"] >= 0.95 * tr["replay"]["events"] and tr["replay"]["events"] >= nvec,
+           "C08: too few examined replay events (vacuity guard)")
+    _guard(rep, tr["random"]["nontrivial"] >= 0.8 * tr["random"]["events"], "C08: too few examined random events (vacuity guard)")
     if not quick:
-        require(tr["corpus"]["nontrivial"] >= 2000, "C08: too few examined corpus events (vacuity guard)")
+        _guard(rep, tr["corpus"]["nontrivial"] >= 2000, "C08: too few examined corpus events (vacuity guard)")
     _outcome_counts(rep, [p for _, p in traces])
 
     # ---- 5. specification mutants (the oracle is not vacuous)
@@ -252,11 +274,11 @@ def _outcome_counts(rep, paths):
             c[k] = c.get(k, 0) + 1
     rep.notes["outcomes"] = dict(sorted(c.items()))
     got = lambda pre: sum(v for k, v in c.items() if k.startswith(pre))
-    require(got("typed/term") > 500 and got("typed/own:unspecified") > 100 and got("cs/term") > 100
-            and got("cs/own:unify") > 100 and got("cs/own:loop") + got("cs/other") > 100,
-            "C08: an outcome class is (almost) absent from the replay: %s" % c)
-    require(got("hist/term") > 200 and got("hist/own:unspecified") > 50 and got("histx/own") > 100,
-            "C08: the theory-switching history family is (almost) absent: %s" % c)
+    _guard(rep, got("typed/term") > 500 and got("typed/own:unspecified") > 100 and got("cs/term") > 100
+           and got("cs/own:unify") > 100 and got("cs/own:loop") + got("cs/other") > 100,
+           "C08: an outcome class is (almost) absent from the replay: %s" % c)
+    _guard(rep, got("hist/term") > 200 and got("hist/own:unspecified") > 50 and got("histx/own") > 100,
+           "C08: the theory-switching history family is (almost) absent: %s" % c)
 
 
 def _first_leaf_path(t, kinds):
@@ -306,7 +328,7 @@ def _selftests(rep, evs, wd, tenv):
     ann = dict(base, tid=10 ** 7 + n + 1, key="selftest:annot", keep="annot", skel=PROBE_ANNOT, outcome="term", cls="", err="", result=two)
     foreign = dict(base, tid=10 ** 7 + n + 2, key="selftest:foreign", keep="annot", skel=PROBE_ANNOT, outcome="other", cls="KeyError",
                    err="", result=NONE)
-    require(len(bad_type) >= 3 and len(bad_err) >= 2, "C08 self-test: no events to corrupt")
+    _guard(rep, len(bad_type) >= 3 and len(bad_err) >= 2, "C08 self-test: no events to corrupt")
     expect = [(c, "ErasureRecovers") for c in bad_type + bad_err] + [(cyc, "Terminates"), (ann, "OneType"), (foreign, "OwnError")]
     # one TLC run for all corrupted events (same rule as core.selftest_trace: every one must be rejected with its clause)
     p = wd / "selftest.ndjson"
